@@ -358,9 +358,13 @@ class QueryCreator(BaseQueryCreator):
                     elif i[0] == "value":
                         values = i[1]
                         if values:
-                            self.query += "?p odml:hasValue ?v .\n?v rdf:type rdf:Bag .\n"
-                            for val in values:
-                                self.query += "?v rdf:li \"{}\" .\n".format(val)
+                            # The RDFWriter exports the values as members rdf:_1, rdf:_2, ...
+                            # of an rdf:Seq; numbers, booleans and dates as typed literals.
+                            self.query += "?p odml:hasValue ?v .\n?v rdf:type rdf:Seq .\n"
+                            for num, val in enumerate(values):
+                                patt = "?v ?member_{0} ?value_{0} .\n"
+                                patt += "FILTER (str(?value_{0}) = \"{1}\") .\n"
+                                self.query += patt.format(num, sparql_str(val))
                     else:
                         self.query += attribute_pattern("p", Property, i[0], i[1])
 
